@@ -227,6 +227,61 @@ def w_tokens(case):
     return res
 
 
+CUTOFFS = [b'\x8d', b'\x8d\x54', b'\x8d\x54\x4a', b'\xc6', b'\xc7', b'\xc8', b'A\x8d\x54\x4a', b'\xe5\x8d', b'\xf1"A":\xc8', b'\xf1"A":\xc6',
+           b'\xf1"A":\xc7', b'\xf1"AB":\x8d']
+SCRUB = [0x98, 0x8e, 0x90, 0x41, 0x54, 0xff]
+
+
+def w_stale(case):
+    """a line cut off in the middle of a multi-byte token, preceded (same file, or earlier file) by a maximal line filled
+    with byte X: what is listed for the cut-off line must not depend on X (nothing may be read from beyond the line)"""
+    res = mkres()
+    try:
+        dialect, listo = case['dialect'], case['listo']
+        for body in CUTOFFS:
+            outs = {}
+            for X in SCRUB:
+                scrub = b'\xf4' + bytes([X]) * 250          # REM + filler: a valid line, never an unterminated string
+                same_file = R.frame(dialect, [(10, scrub), (20, body), (30, b'\xf1"Z"')])
+                got, r = one('plain', dialect, listo, same_file)
+                res['n'] += 1
+                if got is None:
+                    res['viol'].append(('C09:stale:crash', '%s %s' % (body.hex(), r.status())))
+                    continue
+                # drop the listing of the scrub line itself (first output line)
+                rest = got[1].split(b'\n', 1)[1] if b'\n' in got[1] else got[1]
+                outs[X] = (got[0], rest, got[2] > 0)
+                # earlier *file* variant
+                results, complete, rr = mcb.execute('plain', [(dialect, listo, [R.frame(dialect, [(10, scrub)]), R.frame(dialect, [(20, body), (30, b'\xf1"Z"')])])])
+                res['n'] += 1
+                if complete:
+                    outs[('file', X)] = (results[0][1][0], results[0][1][1], results[0][1][2] > 0)
+            vals = set(outs.values())
+            if len(vals) > 1:
+                bump(res, 'depends-on-stale-bytes')
+                a, b = list(vals)[:2]
+                res['viol'].append(('C09:stale:%s:cut-off-token-reads-beyond-line' % R.CANON[dialect],
+                                    'dialect=%s line body %s listed differently depending on the bytes an earlier line left in the buffer: %r vs %r' % (
+                                        dialect, body.hex(), a[1][:60], b[1][:60])))
+            else:
+                bump(res, 'independent')
+            res['nt'].append((R.CANON[dialect], body))
+        if res['viol']:
+            res['case'] = case
+    except Exception:
+        import traceback
+        res['viol'].append(('HARNESS', traceback.format_exc()))
+        res['case'] = case
+    return res
+
+
+def fam_stale(tier):
+    """cut-off multi-byte tokens at the end of a line after a maximal line (same file / earlier file) filled with each of 6 byte values, per dialect name"""
+    for dialect in R.DIALECT_NAMES:
+        for listo in ((7,) if tier == 'quick' else (0, 7)):
+            yield {'w': 'stale', 'dialect': dialect, 'listo': listo}
+
+
 def history_files(dialect):
     # line 2 is longer than line 1, so within one file the line buffer holds nothing useful beyond line 1's length
     # when line 2 is cut short; only an *earlier file* with a line of the same length can make a stale byte pass
@@ -290,7 +345,7 @@ def w_history(case):
 
 
 def worker(case):
-    return {'prefix': w_prefix, 'corrupt': w_corrupt, 'tokens': w_tokens, 'history': w_history}[case['w']](case)
+    return {'prefix': w_prefix, 'corrupt': w_corrupt, 'tokens': w_tokens, 'history': w_history, 'stale': w_stale}[case['w']](case)
 
 
 def shape_seqs(maxlen):
@@ -341,7 +396,7 @@ def fam_history(tier):
                            'cli': (n % 7 == 0) or ln <= 2}
 
 
-FAMILIES = [('T-token-faults', fam_tokens), ('H-file-histories', fam_history), ('P-prefixes', fam_prefix),
+FAMILIES = [('T-token-faults', fam_tokens), ('S-stale-buffer-independence', fam_stale), ('H-file-histories', fam_history), ('P-prefixes', fam_prefix),
             ('F-framing-corruption', fam_corrupt)]
 
 
